@@ -316,6 +316,101 @@ impl<const BITS: usize, const LIMBS: usize> Uint<BITS, LIMBS> {
         Some(Self::from_limbs(limbs))
     }
 //@ end
+//@ extract src/bytes.rs fn from_le_slice
+    pub fn from_le_slice(bytes: &[u8]) -> /*+*/(r:/*-*/ Self/*+*/)
+        requires Self::sized(), BITS <= usize::MAX - 63,
+            // documented: panics if the value is too large for the bit-size of the Uint
+            bytes.len() <= (BITS + 7) / 8, lbv(bytes@, bytes.len() as int) < pow2(BITS as nat)
+        ensures r.wf(), r.val() as int == lbv(bytes@, bytes.len() as int)/*-*/
+    {
+        match Self::try_from_le_slice(bytes) {
+            Some(value) => value,
+            None => vpanic ( ),
+        }
+    }
+//@ end
+
+//@ extract src/bytes.rs fn from_be_slice
+    pub fn from_be_slice(bytes: &[u8]) -> /*+*/(r:/*-*/ Self/*+*/)
+        requires Self::sized(), BITS <= usize::MAX - 63,
+            bytes.len() <= (BITS + 7) / 8, lbv(rev(bytes@), bytes.len() as int) < pow2(BITS as nat)
+        ensures r.wf(), r.val() as int == lbv(rev(bytes@), bytes.len() as int)/*-*/
+    {
+        match Self::try_from_be_slice(bytes) {
+            Some(value) => value,
+            None => vpanic ( ),
+        }
+    }
+//@ end
+
+//@ extract src/bytes.rs fn from_le_bytes
+    pub fn from_le_bytes<const BYTES: usize>(bytes: [u8; BYTES]) -> /*+*/(r:/*-*/ Self/*+*/)
+        requires Self::sized(), BITS <= usize::MAX - 63,
+            // documented: panics if BYTES is not Self::BYTES or the value is too large
+            BYTES == (BITS + 7) / 8, lbv(bytes@, BYTES as int) < pow2(BITS as nat)
+        ensures r.wf(), r.val() as int == lbv(bytes@, BYTES as int)/*-*/
+    {
+        // TODO: Use a `const {}` block for this assertion
+        vassert (BYTES == Self::BYTES() );
+        Self::from_le_slice(&bytes)
+    }
+//@ end
+
+//@ extract src/bytes.rs fn from_be_bytes
+    pub fn from_be_bytes<const BYTES: usize>(bytes: [u8; BYTES]) -> /*+*/(r:/*-*/ Self/*+*/)
+        requires Self::sized(), BITS <= usize::MAX - 63,
+            BYTES == (BITS + 7) / 8, lbv(rev(bytes@), BYTES as int) < pow2(BITS as nat)
+        ensures r.wf(), r.val() as int == lbv(rev(bytes@), BYTES as int)/*-*/
+    {
+        // TODO: Use a `const {}` block for this assertion
+        vassert (BYTES == Self::BYTES() );
+        Self::from_be_slice(&bytes)
+    }
+//@ end
+    // ASSUMED (label A, memory layout on a little-endian target): to_le_bytes is `*self.as_le_slice().as_ptr().cast()`, the first BYTES bytes of the
+    // limb array reinterpreted - they are the base-256 digits of the value, least significant first.  Kani: c08_to_le_bytes_* per width.
+    #[verifier::external_body]
+    pub fn to_le_bytes<const BYTES: usize>(&self) -> (r: [u8; BYTES])
+        requires self.wf(), BYTES == (BITS + 7) / 8
+        ensures lbv(r@, BYTES as int) == self.val()
+    { unimplemented!() }
+
+//@ extract src/bytes.rs fn to_be_bytes
+    pub fn to_be_bytes<const BYTES: usize>(&self) -> /*+*/(r:/*-*/ [u8; BYTES]/*+*/)
+        requires self.wf(), BYTES == (BITS + 7) / 8
+        // the base-256 digits, most significant first
+        ensures lbv(rev(r@), BYTES as int) == self.val()/*-*/
+    {
+        let mut bytes = self.to_le_bytes::<BYTES>();
+        /*+*/let ghost le = bytes@;/*-*/
+
+        // bytes.reverse()
+        let len = bytes.len();
+        let half_len = len / 2;
+        let mut i = 0;
+        while i < half_len
+            /*+*/invariant len == BYTES, half_len == len / 2, 0 <= i <= half_len, le.len() == len,
+                forall|j: int| 0 <= j < len ==> #[trigger] bytes@[j] == (if j < i || j >= len - i { le[len - 1 - j] } else { le[j] }),
+            decreases half_len - i/*-*/
+        {
+            let tmp = bytes[i];
+            bytes[i] = bytes[len - 1 - i];
+            bytes[len - 1 - i] = tmp;
+            i += 1;
+        }
+        /*+*/proof {
+            assert(rev(bytes@) =~= le) by {
+                assert forall|j: int| 0 <= j < len implies rev(bytes@)[j] == le[j] by {
+                    let q = len - 1 - j;
+                    assert(rev(bytes@)[j] == bytes@[q]);
+                    if q < i || q >= len - i { } else { assert(i == half_len); assert(q == j); }
+                }
+            }
+        }/*-*/
+
+        bytes
+    }
+//@ end
 }
 
 } // verus!
